@@ -36,7 +36,10 @@ let nn s = n_of_int (int_of_string s)
 let parse_event (tok : string) : gevent option =
   let rest = after_colon tok in
   match tag_of tok with
-  | "PD" | "NB" | "GB" -> None
+  | "NB" | "GB" -> None
+  | "PD" -> Some GESent
+  | "CX" -> Some (GECtxSeen (nn rest))
+  | "XS" -> Some (GESelfExit (nn rest))
   | "O" -> Some (GE (EOffer (parse_cmap rest)))
   | "SA" -> Some (GE EStopApi) | "SR" -> Some (GE EStopApiRet)
   | "CA" -> Some (GE ECancel) | "CL" -> Some (GE EClose)
@@ -71,7 +74,7 @@ let impl_predicates (name : string) (toks : string list) : int * int =
       match tag_of tok with
       | "F" -> (match split ',' rest with [_; _; i; _] -> Hashtbl.replace created i () | _ -> ())
       | "ST" -> Hashtbl.replace stopret rest ()
-      | "RX" -> Hashtbl.replace runret rest ()
+      | "RX" | "XS" -> Hashtbl.replace runret rest ()
       | "RR" -> returned := true
       | "G" ->
         (match List.map int_of_string (split ',' rest) with
